@@ -1,6 +1,7 @@
 package main
 
 import (
+	"regexp"
 	"fmt"
 	"go/types"
 	"strconv"
@@ -180,6 +181,8 @@ func (w *Worker) symFormat(tag string, vals []Value) *Term {
 	}
 	return w.tc.UF("fmt:"+tag, sortStr, ts...)
 }
+
+var pureIntVerb = regexp.MustCompile(`^%[0-9]*d$`)
 
 func init() {
 	intrinsics = map[string]stubFn{
@@ -439,6 +442,11 @@ func init() {
 		if format.Const {
 			if cv, ok := w.fmtConcrete(vals); ok {
 				return w.tc.Str(fmt.Sprintf(format.S, cv...)), false
+			}
+			// a lone integer verb ("%d", "%016d") of a symbolic integer stays symbolic: the text is an
+			// uninterpreted function of the number
+			if pureIntVerb.MatchString(format.S) {
+				return w.symFormat(format.S, vals), false
 			}
 			// a symbolic integer among otherwise concrete arguments is concretised by forking over
 			// its feasible values in [0,16] (names built from ordinals, e.g. "<claim>-<sts>-<i>")
